@@ -23,7 +23,7 @@
      res_flux = flux_of - exact, res_bp = facep_of - lin (fcen f);  e0..e3 = fields 1, x, y, z *)
 From Coq Require Import List ZArith Bool Arith Lia Reals Lra.
 Import ListNotations.
-From PP Require Import Model.C11 Proofs.C11.
+From PP Require Import Model.C11 Model.C13 Proofs.C11 Proofs.C11_inv.
 Local Open Scope R_scope.
 
 (* For ANY interaction region (any dimension d, any number m of sub-cells, any list of
@@ -142,6 +142,32 @@ Theorem C11_local_rows_linear_extension :
       <= Rabs b * t0 + Rabs ax * t1 + Rabs ay * t2 + Rabs az * t3.
 Proof. exact local_rows_linear_extension. Qed.
 Print Assumptions C11_local_rows_linear_extension.
+
+(* Certificate (iii), invertibility per instance instead of a blanket hypothesis: if some
+   matrix B is an APPROXIMATE left inverse of the n x n local matrix A — every row of
+   B A - I has 1-norm at most q < 1 — then the system A x = r has at most one solution.
+   (prodBA n A B i j = sum_k B i k * A k j; mulv n A x i = sum_j A i j * x j; idn = identity.)
+   The run-time check Model.C11_inv.check_inv establishes the row bound with q = 1/2, in exact
+   arithmetic, for the matrix of all local systems the code hands to its block inverter and
+   the matrix the inverter returns; together with certificate (ii) (the constant gradient
+   solves the captured equations) the constant gradient is THE solution of the captured local
+   systems. *)
+Theorem C11_local_unique_solution :
+  forall (n : nat) (A B : nat -> nat -> R) (q : R),
+    q < 1 ->
+    (forall i, (i < n)%nat -> sumn R RO n (fun j => Rabs (prodBA n A B i j - idn i j)) <= q) ->
+    forall (r x y : nat -> R),
+      (forall i, (i < n)%nat -> mulv n A x i = r i) ->
+      (forall i, (i < n)%nat -> mulv n A y i = r i) ->
+      forall j, (j < n)%nat -> x j = y j.
+Proof. exact unique_solution. Qed.
+Print Assumptions C11_local_unique_solution.
+
+(* Non-vacuity of the above: an explicit 2 x 2 pair. *)
+Example C11_nonvacuous_approx_inverse :
+  (1/2 < 1) /\
+  forall i, (i < 2)%nat -> sumn R RO 2 (fun j => Rabs (prodBA 2 exA2 exB2 i j - idn i j)) <= 1/2.
+Proof. exact example_approx_inverse. Qed.
 
 (* Non-vacuity (A): a concrete 2-D boundary interaction region (two sub-cells, interior,
    Dirichlet and Neumann sub-face, K = [[2,1],[1,3]], p = 3 + x - 2y) with an explicit left
